@@ -41,6 +41,18 @@ CLAIMED = {
         text="SMT contracts on Engine.execute (never raises, always a well-formed response for text or bytes queries), _perform_query (parsing/validation errors answer without executing), parse_and_validate_query (any parser/builder failure becomes non-empty errors), build_execution_context (GetOperation selection, abort iff selection or variable coercion fails, context fields), execute (aborted requests run nothing), build_response (errors key iff errors, one coerced entry per error), func_wrapper (user coercer awaited exactly once with the exception and its coerced value), TartifletteError.coerce_value and Location.collect_value (entry shape).",
         ref="DESIGN.md section 4 C18",
         note="The user error coercer returns normally; bytes are opaque non-str values; 'locations lie inside the query text' is not decided (absent C parser)."),
+    'C01': dict(
+        text="collect_fields and collect_subfields are proved equal to the CollectFields algorithm of GraphQL 6.3.2 (accumulator form: @skip/@include outcome first, response key = alias or name, first-appearance order, inline fragments / spreads under their type condition, each named fragment once per grouped set) by a loop invariant and the recursive callee contract; should_include_node and does_fragment_condition_match against their clauses; execute_operation (executor choice, root collection), execute_fields_serially (one await per key in order, ordered result map), complete_value_catching_error and get_output_coercer (output chain = CompleteValue for the declared type).",
+        ref="DESIGN.md section 4 C01",
+        note="Not under contract in this revision: execute_fields (covered structurally by the gather rule only), resolve_field / resolve_field_value_or_error (resolver called once with coerced arguments), abstract_coercer / ensure_valid_runtime_type (type-resolver precedence), default_field_resolver. Termination of fragment recursion is not verified. User resolvers and hooks are opaque."),
+    'C09': dict(
+        text="execute_operation selects execute_fields_serially exactly when the operation type is 'mutation' and runs it on the collected root fields; execute_fields_serially awaits resolve_field once per collected key in collection order (ghost trace == keys of the collected map) and builds the response map in that order; a raising (non-null) root field stops the loop and execute_operation answers null with the error recorded; structural obligations: no create_task/ensure_future/... anywhere in the request cone and every gather over raising awaitables uses return_exceptions=True, so a root field's whole sub-selection has completed when its await returns.",
+        ref="DESIGN.md section 4 C09",
+        note="Assumes Python's await semantics (a coroutine awaited in place runs to completion before the awaiting coroutine continues). Schedules of nested resolvers are not enumerated."),
+    'C14': dict(
+        text="Engine._perform_subscription (async generator, ghost output sequence): parsing/validation errors or a refused request yield exactly one errors-only response and never create the source stream; otherwise the yielded sequence equals map(execute against the event) over the source's events, in order, each event executed as a fresh request with exactly the request's arguments (loop invariant over the consumed prefix). create_source_event_stream: a refused request does not call the registered source; otherwise the source is called with the arguments coerced from the request's coerced variable map.",
+        ref="DESIGN.md section 4 C14",
+        note="Async-generator protocol assumed (events delivered in order, generator ends with the source); the per-event response is whatever execute returns (C01/C02/C18 contracts); Subscription.bake wiring and directive generators are not under contract."),
 }
 
 REASON_PENDING = "contracts for this property are not in place in this revision (DESIGN.md section 8 delivery order); no other technique is substituted"
